@@ -452,6 +452,8 @@ func (d *Data) handlePostLabels(ctx *datastore.VersionedCtx, w http.ResponseWrit
 	if err := json.Unmarshal(jsonBytes, &data); err != nil {
 		return err
 	}
+	d.mutateMu.Lock()
+	defer d.mutateMu.Unlock()
 	for k, v := range data {
 		label, err := strconv.ParseUint(k, 10, 64)
 		if err != nil {
